@@ -214,7 +214,9 @@ def judge_parallel(sc, module, consts, trace_path, nlines, parts=8, heap="6g", t
     parts = max(1, min(parts, core.NCPU // 2))
     with open(trace_path) as f:
         lines = f.readlines()
-    per = (len(lines) + parts - 1) // parts
+    # a trace is one TLC behaviour: keep every part well below TLC's limit on the length of a behaviour (the thorough tier of
+    # C04 ended with "behaviors of length up to 65535 states" at 41 364 lines); more parts than workers run in turn
+    per = min((len(lines) + parts - 1) // parts, 20000)
     cuts = [0]
     while cuts[-1] < len(lines):
         j = min(cuts[-1] + per, len(lines))
@@ -228,7 +230,7 @@ def judge_parallel(sc, module, consts, trace_path, nlines, parts=8, heap="6g", t
             f.writelines(lines[cuts[k]:cuts[k + 1]])
         chunks.append((cp, cuts[k + 1] - cuts[k]))
     # allocate the scratch TLC directories up front (Scratch is not thread-safe)
-    with concurrent.futures.ThreadPoolExecutor(max_workers=len(chunks)) as ex:
+    with concurrent.futures.ThreadPoolExecutor(max_workers=min(len(chunks), parts)) as ex:
         futs = [ex.submit(judge, sc, module, consts, cp, n, heap, timeout) for cp, n in chunks]
         results = [f.result() for f in futs]
     out = dict(consumed=sum(r["consumed"] for r in results), viol=[], div=[])
